@@ -3,7 +3,7 @@
    accepted value, or rejection); [check] evaluates the model on the same input
    and compares every field.  A model answer Out (input outside the modelled
    domain) is only accepted when the harness declared the case out of domain. *)
-From Slug Require Import Base.Str Base.PathAlg Addr.Resolve Addr.Url Addr.Parse Addr.RoundTrip.
+From Slug Require Import Base.Str Base.PathAlg Addr.Resolve Addr.Url Addr.Parse Addr.RoundTrip Addr.RoundTripFinal.
 Export Str Url Parse.
 
 Inductive api := ApSource | ApFinal | ApRemote | ApRemotePkg | ApRegistry | ApRegistryPkg
@@ -64,9 +64,13 @@ Definition wf_check (a : api) (s : str) : bool :=
   match a with
   | ApRegistry => match parse_registry s with Ok (p, _) => wf_mpkgb p | _ => true end
   | ApRegistryPkg => match parse_registry_pkg s with Ok p => wf_mpkgb p | _ => true end
-  | ApFinalRegistry => match parse_final_registry s with Ok (p, _, _) => wf_mpkgb p | _ => true end
+  | ApFinalRegistry => match parse_final_registry s with
+                       | Ok (p, v, _) => wf_mpkgb p &&& wf_version v &&& negb (mem_char c_nl (m_host p))
+                       | _ => true end
   | ApSource => match parse_source s with Ok (ARegistry p _) => wf_mpkgb p | _ => true end
-  | ApFinal => match parse_final_source s with Ok (ARegistryFinal p _ _) => wf_mpkgb p | _ => true end
+  | ApFinal => match parse_final_source s with
+               | Ok (ARegistryFinal p v _) => wf_mpkgb p &&& wf_version v &&& negb (mem_char c_nl (m_host p))
+               | _ => true end
   | _ => true
   end.
 
